@@ -40,6 +40,9 @@ class Ctx:
         self.t0 = time.time()
         base = os.environ.get("VERIF_SCRATCH", "/var/tmp")
         self.scratch = Path(tempfile.mkdtemp(prefix=f"octave-verif.{prop}.", dir=base))
+        # every scratch directory a driver or one of its workers makes goes under this run's own directory, so that concurrent runs
+        # (of the same check, too) cannot see or clean up each other's files
+        os.environ["VERIF_SCRATCH"] = str(self.scratch)
         self.model_runs = []  # TLCResult summaries
         self.details = {}     # i -> full payload printed by the trace specification for a rejected record
         self.trace_records = 0
